@@ -1,6 +1,6 @@
 SPECIFICATION Spec
 CONSTANTS
-  LoNeg = 171000
-  Hi = 194000
+  LoNeg = 719162
+  Hi = 2932896
 INVARIANTS ValidDate RoundTrip Successor WeekdayAdvances YearDayOK Anchors
 CHECK_DEADLOCK FALSE
